@@ -11,6 +11,7 @@ EXTENDS NetBuild, Json, IOUtils
 
 File == ndJsonDeserialize(IOEnv.TRACE_FILE)
 TraceNameOf == File[1].names
+NoInvalTable == <<>>
 
 AsSet(s) == {s[i] : i \in DOMAIN s}
 \* the clauses that fail at step i given the specification's result a for the call and the observation o
